@@ -111,3 +111,12 @@ for _k, _st, _h in (("footnote", "used_footnotes", "footnote_hash"), ("citation"
           callees={"clean_string / label_from_string": "contract stubs returning the two candidate keys", "HASH_FIND_STR (uthash)": "real macro code over a real one-entry table",
                    "stack_push": "contract stub (C18), no growth", "stack_new": "body"},
           min_obligations=10, timeout=300, cost=10, assumptions=[NOFAIL])
+
+# ---- (7) note lists: the content is rendered with the paragraph counter that makes the last paragraph carry the back-link
+for _k, _fn, _st in (("footnote", "mmd_export_footnote_list_html", "used_footnotes"), ("glossary", "mmd_export_glossary_list_html", "used_glossaries"), ("citation", "mmd_export_citation_list_html", "used_citations")):
+    U("backlink_counter_" + _k, ["C10"], "h_backlink", ["C10/backlink.c"], ["html.c", "stack.c"], plain=True, lib=(), kind="bounded",
+      drop_bodies=["mmd_export_token_tree_html", "mmd_print_string_html", "stack_push"],
+      defines=["-DI18N_DISABLED=1", "-DLIST_FN=" + _fn, "-DLIST_STACK=" + _st], cbmc_flags=["--unwind", "6", "--unwinding-assertions", "--object-bits", "12"],
+      bounds={"used notes": 1, "blocks in the note's content": "0..3 (types symbolic)", "unwind": 6}, functions=[_fn],
+      callees={"mmd_export_token_tree_html": "contract stub: requires footnote_para_counter == number of BLOCK_PARA blocks of the content", "DString, pad, mmd_print_string_html": "no-op stubs", "stack_peek_index/stack_new": "body"},
+      min_obligations=8, timeout=300, cost=8, assumptions=[NOFAIL, "srand/rand: stubs (values irrelevant here)"])
